@@ -497,6 +497,7 @@ func runC18(c *Ctx) {
 	checkNoQueueSendUnderClientMutex(c, "C18-R5")
 	checkCallbackProducersHandOverInline(c, "C18-R5")
 	checkClientStopAlwaysStopsQueue(c, "C18-R5")
+	checkSpawnGuardsAreAtomicTestAndSet(c, "C18-R5")
 	checkProducerNotifiesRelevantTxOnce(c, "C18-R4")
 	checkReorgListBuiltInOneDirection(c, "C18-R4") // the producer enqueues a reorganised branch in chain order
 }
@@ -673,4 +674,93 @@ func checkProducerNotifiesRelevantTxOnce(c *Ctx, rule string) {
 		}
 	}
 	c.Floor(rule, "relevant-transaction hand-overs in the bitcoind client", n, 2)
+}
+
+// checkSpawnGuardsAreAtomicTestAndSet: the goroutine that takes block notifications off the backend's feed and turns them
+// into the ordered stream must exist at most once — two of them read consecutive blocks concurrently, and a block is
+// examined before its predecessor became the best block (mistaken for a reorg, dropped, and the stream never recovers).
+// Where the start of a goroutine is gated by an atomically accessed flag of the receiver, test and set must be ONE atomic
+// step (a compare-and-swap whose success edge leads to the start). A function that first loads the flag (directly or
+// through a small accessor), later stores it, and starts the goroutine in between or after, lets two overlapping callers
+// both pass the test.
+func checkSpawnGuardsAreAtomicTestAndSet(c *Ctx, rule string) {
+	p := c.P
+	atomicOp := func(ci ssa.CallInstruction) (kind, field string) {
+		g := ci.Common().StaticCallee()
+		if g == nil || g.Pkg == nil || g.Pkg.Pkg.Path() != "sync/atomic" || len(ci.Common().Args) == 0 {
+			return "", ""
+		}
+		fa, ok := stripConv(ci.Common().Args[0]).(*ssa.FieldAddr)
+		if !ok {
+			return "", ""
+		}
+		_, f := fieldAddrName(fa)
+		switch {
+		case strings.HasPrefix(g.Name(), "CompareAndSwap"):
+			return "cas", f
+		case strings.HasPrefix(g.Name(), "Load"):
+			return "load", f
+		case strings.HasPrefix(g.Name(), "Store"):
+			return "store", f
+		case strings.HasPrefix(g.Name(), "Add"), strings.HasPrefix(g.Name(), "Swap"):
+			return "rmw", f
+		}
+		return "", ""
+	}
+	// flag fields an If condition is computed from (through accessors of the package)
+	loadedFlags := func(cond ssa.Value, pkg string) map[string]string {
+		out := map[string]string{}
+		sl := &Slicer{P: p, ThroughBinOp: true, ThroughReturns: func(g *ssa.Function) bool { return fnPkgPath(g) == pkg }}
+		for _, o := range sl.Origins(cond) {
+			if call, ok := o.(*ssa.Call); ok {
+				if k, f := atomicOp(call); k != "" {
+					out[f] = k
+				}
+			}
+		}
+		return out
+	}
+	n := 0
+	for _, fn := range p.FuncsIn("chain") {
+		var spawns []*ssa.Go
+		for _, b := range fn.Blocks {
+			for _, ins := range b.Instrs {
+				if g, ok := ins.(*ssa.Go); ok {
+					spawns = append(spawns, g)
+				}
+			}
+		}
+		if len(spawns) == 0 {
+			continue
+		}
+		stores := map[string]bool{}
+		for _, ci := range callsOf(fn) {
+			if k, f := atomicOp(ci); k == "store" {
+				stores[f] = true
+			}
+		}
+		for _, sp := range spawns {
+			// the flag tests the start is gated by: conditions of blocks that dominate it
+			gates := map[string]string{}
+			for b := sp.Block().Idom(); b != nil; b = b.Idom() {
+				if len(b.Instrs) == 0 {
+					continue
+				}
+				if iff, ok := b.Instrs[len(b.Instrs)-1].(*ssa.If); ok {
+					for f, k := range loadedFlags(iff.Cond, fnPkgPath(fn)) {
+						if gates[f] != "cas" && gates[f] != "rmw" {
+							gates[f] = k
+						}
+					}
+				}
+			}
+			for f, k := range gates {
+				n++
+				ok := k == "cas" || k == "rmw" || !stores[f]
+				c.Check(rule, "spawn-guard-is-atomic-test-and-set:"+fnName(fn)+"/"+f, sp.Pos(), ok,
+					fnName(fn)+" starts a goroutine behind a load of the flag "+f+" that it sets in a separate step: two overlapping callers both pass the test and two goroutines consume the same notification feed concurrently — blocks are delivered out of order or dropped as false reorgs")
+			}
+		}
+	}
+	c.Floor(rule, "goroutine starts gated by an atomically accessed flag", n, 2)
 }
